@@ -526,29 +526,49 @@ def r6(db, rep, hb, cls):
                  "branching_condition == 0 (never by the raw register comparison, which the delay slot could change)")
     sh = ilshape.Shape(db)
     res = sh.run(lifters.TB["mips"])
-    fams = {}
+    # a conditional branch is an arm of the dispatch that pushes more than one successor or a guarded one (identified by
+    # what it does, not by the name of the helper it goes through)
+    groups = {}
     for s in res.succ:
-        if last_seg(s["fn"]) == "conditional_direct_branch":
-            fams.setdefault(s["ctx"], []).append(s)
-    rep.anchor(len(fams) >= 8, "conditional_direct_branch call sites (found %d)" % len(fams))
-    cb = db.hir.get(lifters.TB["mips"] + "::conditional_direct_branch")
+        groups.setdefault(s["ctx"], []).append(s)
+    fams = {ctx: fam for ctx, fam in groups.items() if len(fam) >= 2 or any(f["guard"] is not None for f in fam)}
+    rep.anchor(len(fams) >= 8, "conditional-branch arms (found %d)" % len(fams))
+
+    def arm_of(ctx):
+        c = list(ctx)
+        while c and c[-1].startswith("call:"):
+            c.pop()
+        return tuple(c)
+
+    _, matches = lifters.insn_matches(db, "mips")
+
+    def label(arm):
+        # name the arm by the mnemonics it lifts (keys carry no line numbers)
+        if arm and arm[-1].startswith("match@"):
+            ln, _, ix = arm[-1][6:].partition(":")
+            for m in matches:
+                if str(m.line) == ln and ix.isdigit() and int(ix) < len(m.arms):
+                    return "/".join(i.replace("MIPS_INS_", "") for i in m.arms[int(ix)]["ids"]) or "default"
+        return "/".join(x.split("@")[0] for x in arm[-2:]) or "top"
+
     for ctx, fam in sorted(fams.items(), key=lambda kv: str(kv[0])):
-        key = "mips|cond_branch|%s" % ctx[-1]
+        arm = arm_of(ctx)
+        key = "mips|cond_branch|%s" % label(arm)
         gs = [f["guard"] for f in fam]
         v = c05.exactly_one(gs) if len(gs) == 2 else None
         latched = all(g not in (None, "?") and {c05.term_key(x) for x in leaves(g)} <= {"scalar:branching_condition", None} and
                       "scalar:branching_condition" in {c05.term_key(x) for x in leaves(g)} for g in gs)
-        r.decide(v is True and latched, key, db.where(cb or hb, fam[0]["line"]),
+        where = db.where(db.hir.get(fam[0]["fn"]) or hb, fam[0]["line"])
+        r.decide(v is True and latched, key, where,
                  "successor guards %s are not {branching_condition, branching_condition == 0}" % [ilshape.show_e(g) if g not in (None, "?") else g for g in gs])
-    # the latching graph is pushed before the successors / delay slot: conditional_graph is called in the helper
-    ok = cb is not None and any(last_seg(callee(x) or "") == "conditional_graph" for x in walk(cb["body"]))
-    r.decide(ok, "mips|latch_graph", db.where(cb) if cb else "", "conditional_direct_branch must push the graph that assigns branching_condition")
-    cg = db.hir.get("translator::mips::conditional_graph")
-    rep.anchor(cg is not None, "conditional_graph")
-    res2 = sh.run("translator::mips::conditional_graph")
-    asg = [o for o in res2.ops if o["kind"] == "Assign"]
-    r.decide(len(asg) == 1 and asg[0]["dst"] == "branching_condition" and asg[0]["dw"] == 1, "mips|latch_assign", db.where(cg),
-             "conditional_graph must assign the 1-bit scalar branching_condition")
+        # the latching graph: the same arm emits exactly one 1-bit assignment to branching_condition
+        asg = [o for o in res.ops if o["kind"] == "Assign" and o.get("dst") == "branching_condition" and tuple(o["ctx"][:len(arm)]) == arm]
+        r.decide(len(asg) == 1 and asg[0]["dw"] == 1, "mips|latch|%s" % label(arm), where,
+                 "the arm must push one graph assigning the 1-bit scalar branching_condition (found %s)" % [(o["dw"], o.get("fn")) for o in asg])
+    # nobody else assigns branching_condition (the delay slot must not be able to change it)
+    others = [o for o in res.ops if o["kind"] == "Assign" and o.get("dst") == "branching_condition" and
+              not any(tuple(o["ctx"][:len(arm_of(c))]) == arm_of(c) for c in fams)]
+    r.decide(not others, "mips|latch_only_in_branches", db.where(hb), "branching_condition is assigned outside a conditional-branch arm: %s" % [(o.get("fn"), o.get("line")) for o in others][:3])
 
 
 def leaves(e):
